@@ -11,6 +11,8 @@
 //          5 set i v        concentrations of state[i] := data set v
 //          6 solve i        Solve(dt, state[i]) ; compared with the same problem on a fresh State
 //          7 smove          solver = Solver(std::move(solver)) (move construction + move assignment)
+//          8 psolve i t     Solve(dt, state[i], parameters) with another parameter set (t = 0: two-stage, 1: six-stage
+//                           Rosenbrock; backward Euler: its default set); that set becomes the solver's
 // A State slot that was never filled, or was moved from, is skipped by set / solve / copy (the model
 // side does the same), so that every executed operation is legal C++ for a type with value semantics.
 #include "common/caseio.hpp"
@@ -163,6 +165,24 @@ static void vsem_case(Toks& tk, Out& out, Params params)
         for (int j = 0; j < 4; ++j)
           if (live[j] && j != i && before[j] != st[j]->variables_.AsVector())
             out.tok("ORACLE_SOLVE_AFFECTS_ANOTHER_STATE");
+        break;
+      }
+      case 8:
+      {
+        int i = (int)tk.i(), t = (int)tk.i();
+        if (!live[i])
+        {
+          out.tok("-");
+          break;
+        }
+        solver.CalculateRateConstants(*st[i]);
+        if constexpr (std::is_same_v<Params, micm::RosenbrockSolverParameters>)
+          solver.Solve(1.0, *st[i],
+                       t == 0 ? micm::RosenbrockSolverParameters::TwoStageRosenbrockParameters()
+                              : micm::RosenbrockSolverParameters::SixStageDifferentialAlgebraicRosenbrockParameters());
+        else
+          solver.Solve(1.0, *st[i], Params{});
+        out.tok("P");
         break;
       }
       case 7:
